@@ -139,7 +139,8 @@ class Run:
                     and (self.tier in f.get("tiers", ["quick", "thorough"])):
                 print(f"note: listed finding no longer reproduces: property={self.pid} [{f.get('key')}]")
         for v in self.violations:
-            print(f"VIOLATION property={self.pid} replay={v['replay']}  # {v['what']}")
+            what = str(v['what']).encode("ascii", "backslashreplace").decode().replace("\n", " ")
+            print(f"VIOLATION property={self.pid} replay={v['replay']}  # {what}")
         print(f"{self.pid} {self.tier}: states={self.states} transitions={self.transitions} "
               f"validated={self.validated} evaluations={self.evaluations} violations={len(self.violations)} "
               f"known={len(self.known_hit)} wall={wall:.1f}s")
